@@ -351,27 +351,29 @@ example : ((M.Hosts.runDirect (.task handoffProg) false handoffActs).map fun r =
 /-- **COMPLETENESS OF EVICTION for tasks that wait only on shell requests** — the last clause of the property, proved over
     whole runs for SIMPLE task programs (`simpleIs`: emit, notify, request, stream, spawn, join, self-wake in any nesting; no
     select, no request future handed to another task, no join handles, no abort handles, no hosted commands) under the
-    direct host: after EVERY history of resolutions, drops and polls that leaves the command settled and every request
-    channel closed (resolved-and-consumed or dropped), NO TASK REMAINS — so the command is done as soon as its outputs have
+    direct host: after EVERY history of resolutions, drops and polls that leaves every request channel closed
+    (resolved-and-consumed or dropped), NO TASK REMAINS — so the command is done as soon as its outputs have
     been taken (`done_iff`). Four global invariants meet here: `GInv` (a stored unqueued task is parked at registrations of its
     own waker), `LQ` (a registered waker means a live sender — so with every sender gone the task is parked at closed
     requests only), `SPc` (stored tasks stay simple: one `grind` call) and `ND` (a stored task suspended only at closed
     requests is on the ready queue: the poll that leaves a simple task so registers its waker nowhere — `NRGood`, one
-    `grind` call — hence `run_task` evicts it unless that poll woke it). The hypothesis `hna` (no stored task was aborted
-    through a join handle) is kept explicit; simple programs have no join handles. What the fragment excludes is exactly
-    what `completeness_fails_with_handoff` needs: a registration that is made and then abandoned. -/
+    `grind` call — hence `run_task` evicts it unless that poll woke it); a fifth, `NAb` (nothing is ever aborted: simple programs
+    have no handles — `NAGood`), discharges the "not aborted" side condition of `GInv` and shows that every observation leaves the ready queue empty
+    (`runDirect_ready`). No hypothesis is left but the shape of
+    the program and the state of the channels. What the fragment excludes is exactly what `completeness_fails_with_handoff`
+    needs: a registration that is made and then abandoned. -/
 theorem simple_command_done_when_all_requests_gone (is : List Instr) (hf : hostFreeIs is = true) (hs : simpleIs is = true)
     (canon : Bool) (acts : List M.Hosts.Action) (os : List M.Hosts.Obs) (d : M.Hosts.Direct)
-    (h : M.Hosts.runDirect (.task is) canon acts = some (os, d)) (hr : (d.w.cmd d.cid).ready = [])
-    (hall : ∀ l, l < d.w.leaves.length → (d.w.leaf l).senderAlive = false ∧ (d.w.leaf l).legacy = false)
-    (hna : ∀ tid t, (d.w.cmd d.cid).tasks.get? tid = some t → (d.w.getMeta t.serial).aborted = false) (tid : Nat) :
+    (h : M.Hosts.runDirect (.task is) canon acts = some (os, d))
+    (hall : ∀ l, l < d.w.leaves.length → (d.w.leaf l).senderAlive = false ∧ (d.w.leaf l).legacy = false) (tid : Nat) :
     (d.w.cmd d.cid).tasks.get? tid = none := by
+  have hr : (d.w.cmd d.cid).ready = [] := M.Hosts.runDirect_ready is hf hs canon acts os d h
   cases hg : (d.w.cmd d.cid).tasks.get? tid with
   | none => rfl
   | some t =>
     exfalso
     have cl := M.Hosts.runDirect_cl is hf hs canon acts os d h
-    have gone := all_requests_gone_leaves_only_dead_waits is hf canon acts os d h hr hall tid t hg (hna tid t hg)
+    have gone := all_requests_gone_leaves_only_dead_waits is hf canon acts os d h hr hall tid t hg (cl.na.getMeta t.serial)
     have dead := deadOnly_of_goneOnly t.fut (cl.sp.t t (M.Slab.mem_values_of_get _ _ _ hg)) gone
     have := cl.nd tid t hg (fun e => by cases e) dead
     rw [hr] at this
